@@ -21,10 +21,13 @@ equivalence are *clause definitions* (`bool_group_defines`, `tel_group_defines`,
 clause definitions — each fresh atom new to the program and to the definitions before it, later ones free to use earlier
 ones, as the literals of sub-formulas are used by their super-formulas — is a conservative extension
 (`definition_chain_conservative`).
-PARTIAL: not derived from the model are the placeholders of `>` beyond the horizon (externals that are equated and freed
-in a later step — a statement about multi-shot solving); for those the hypotheses are checked on the implementation:
-(H1) the recorded backend statements of every run with body formulas have exactly the three shapes
-(tools/impl_theory.backend_shape), (H2) in every answer set the recorded literal values solve the equations (L4).
+The placeholder of a `>` whose target lies beyond the horizon is, in the program of one solve call, an external with a
+fixed truth value — a fact (weak) or nothing (strong): also a clause definition (`placeholder_defines`); in the solve call
+that reaches the target it is a free atom with the clauses of `make_equal` (`eq_group_defines`).
+PARTIAL: that clingo's multi-shot state after `add_external(…, Free)` / `release_external` is this per-call program is the
+solver's contract; it is checked on the implementation: (H1) the recorded backend statements of every run with body
+formulas have exactly the admitted shapes (tools/impl_theory.backend_shape), (H2) in every answer set the recorded literal
+values solve the equations (L4).
 -/
 import TelProofs.SemSys
 import TelProofs.DelUnique
@@ -124,7 +127,11 @@ theorem tel_group_defines (dual : Bool) (v : Nat) (lhs : Option Int) (rhs pre : 
 theorem eq_group_defines (v : Nat) (b : Int) (hv : 0 < v) (hb : b ≠ 0) (hvb : b.natAbs ≠ v) : (eqDef v b).WF :=
   eqDef_wf v b hv hb hvb
 
-/-- non-vacuity: `{a}.` with `v2 := a | not a`, `v3 := v2 & a`, theory atom `4 = v3` -/
+/-- the placeholder of `>` / `>:` beyond the horizon: an external fixed to the value of the operator at the end of the trace -/
+theorem placeholder_defines (v : Nat) (weak : Bool) (hv : 0 < v) : (placeholderDef v weak).WF :=
+  placeholderDef_wf v weak hv
+
+/-- non-vacuity: `{a}.` with `v2 := a | not a`, the placeholder `5` of a weak next, `v3 := v2 & 5`, theory atom `4 = v3` -/
 example : Conservative [{ head := [1], choice := true }] (chainRules exChain) (fun n => exChain.any (fun d => n == d.v)) :=
   exChain_conservative
 
